@@ -117,7 +117,14 @@ Proof. unfold enqueue_m. destruct (is_done _); auto. destruct (_ <? _); auto. Qe
 
 (* ---------------------------------------------------------------- the three registry steps *)
 Lemma Inv_init cap : Inv (init cap).
-Proof. constructor; cbn; intros; try tauto; try constructor; try discriminate; auto; split; [tauto|discriminate]. Qed.
+Proof.
+  constructor; cbn.
+  - constructor.
+  - intros c; split; [tauto|discriminate].
+  - intros; split; reflexivity.
+  - discriminate.
+  - reflexivity.
+Qed.
 
 Lemma Inv_spawn s id v s' : Inv s -> step true s (Spawn id v) = Some s' -> Inv s'.
 Proof.
@@ -147,10 +154,12 @@ Lemma insert_entry s c id :
   (forall c', sim (conns s c') (conns s1 c')) /\
   (forall i, reg s1 i = if i =? id then c :: reg s id else reg s i).
 Proof.
-  destruct (reg s id) as [|a rest] eqn:E; cbn.
-  - repeat split; auto. intros i. unfold fupd. now destruct (i =? id).
+  destruct (reg s id) as [|a rest] eqn:E; cbv zeta.
+  - split; [reflexivity|]. split; [reflexivity|]. split; [intros; apply sim_refl|].
+    intros i. cbn. unfold fupd. now destruct (i =? id).
   - destruct (same_reg_enqueue_m s a (status_frame (ver (conns s a)) 1)) as (h1 & h2 & h3 & h4).
-    repeat split; auto; try apply h4. intros i. unfold fupd. destruct (i =? id) eqn:Ei; [reflexivity|apply h3].
+    split; [exact h1|]. split; [exact h2|]. split; [exact h4|].
+    intros i. cbn. unfold fupd. destruct (i =? id) eqn:Ei; [reflexivity|apply h3].
 Qed.
 
 Lemma Inv_insert s c s' : Inv s -> step true s (Insert c) = Some s' -> Inv s'.
@@ -213,8 +222,9 @@ Lemma unregister_entry s c id :
   (forall c', sim (conns s c') (conns s1 c')) /\
   (forall i, reg s1 i = if i =? id then filter (fun y => negb (y =? c)) (reg s id) else reg s i).
 Proof.
-  intros Hnd. destruct (reg s id) as [|a rest] eqn:E.
-  - cbn. repeat split; auto. intros i. destruct (i =? id) eqn:Ei; [|reflexivity].
+  intros Hnd. destruct (reg s id) as [|a rest] eqn:E; cbv zeta.
+  - split; [reflexivity|]. split; [reflexivity|]. split; [intros; apply sim_refl|].
+    intros i. destruct (i =? id) eqn:Ei; [|reflexivity].
     apply N.eqb_eq in Ei. now subst.
   - inversion Hnd as [|? ? Hnin Hnd']. subst.
     destruct (a =? c) eqn:Eac.
@@ -222,13 +232,14 @@ Proof.
       assert (Hf : filter (fun y => negb (y =? c)) (c :: rest) = rest).
       { cbn. rewrite N.eqb_refl. cbn. now apply filter_id_notin. }
       destruct rest as [|p rest'].
-      * cbn. repeat split; auto. intros i. unfold fupd. rewrite N.eqb_refl. cbn. now destruct (i =? id).
+      * split; [reflexivity|]. split; [reflexivity|]. split; [intros; apply sim_refl|].
+        intros i. rewrite Hf. cbn. unfold fupd. now destruct (i =? id).
       * set (s0 := set_reg s id (p :: rest')).
         destruct (same_reg_enqueue_m s0 p (status_frame (ver (conns s p)) 0)) as (h1 & h2 & h3 & h4).
-        cbv zeta. repeat split; auto; try apply h4.
-        intros i. rewrite h3. cbn. unfold fupd. rewrite Hf. now destruct (i =? id).
-    + cbv zeta. cbn. rewrite Eac. cbn. repeat split; auto.
-      intros i. unfold fupd. now destruct (i =? id).
+        split; [exact h1|]. split; [exact h2|]. split; [exact h4|].
+        intros i. rewrite h3, Hf. cbn. unfold fupd. now destruct (i =? id).
+    + split; [reflexivity|]. split; [reflexivity|]. split; [intros; apply sim_refl|].
+      intros i. cbn [filter]. rewrite Eac. cbn. unfold fupd. now destruct (i =? id).
 Qed.
 
 Lemma Inv_unregister s c s' : Inv s -> step true s (Unregister c) = Some s' -> Inv s'.
@@ -261,7 +272,7 @@ Proof.
     + apply N.eqb_eq in Ei. subst i. rewrite I5, filter_filter_and.
       apply filter_ext. intros c'. unfold live_for. cbn.
       destruct (N.eq_dec c' c) as [->|Hne].
-      * rewrite fupd_same. cbn. rewrite N.eqb_refl. cbn. now rewrite !andb_false_r.
+      * rewrite fupd_same. cbn. rewrite (N.eqb_refl c). cbn. now rewrite !andb_false_r.
       * rewrite fupd_other by assumption. destruct (hs c') as (e1 & _ & e3 & _).
         rewrite <- e1, <- e3. apply N.eqb_neq in Hne. rewrite Hne. cbn. now rewrite andb_true_r.
     + rewrite I5. apply filter_ext. intros c'. unfold live_for. cbn.
@@ -280,7 +291,7 @@ Proof.
   - destruct (c <? nconns s); [|discriminate]. injection H as <-.
     apply same_reg_set_conn. repeat split; auto.
   - destruct (is_running (cstate (conns s c))) eqn:E; [|discriminate]. injection H as <-.
-    apply same_reg_set_conn. destruct (cstate (conns s c)); try discriminate. repeat split; auto. discriminate.
+    apply same_reg_set_conn. unfold sim. cbn. destruct (cstate (conns s c)); cbn in E; try discriminate E. repeat split; auto; intros Hx; discriminate Hx.
   - destruct (nth_error (pending s) (N.to_nat k)) as [[gone peer]|]; [|discriminate].
     destruct (reg (set_pending s _) peer) eqn:E; injection H as <-.
     + apply same_reg_set_pending.
@@ -511,12 +522,12 @@ Proof.
       destruct (enqueue_m_fields (set_reg s id (q :: rest')) q (status_frame (ver (conns s q)) 0)) as (_ & hp & _).
       rewrite hp in Hin. cbn in Hin. contradiction. }
   injection H as <-. cbn in Hin. apply in_app_or in Hin as [Hin|Hin]; [contradiction|].
-  apply in_map_iff in Hin as (p' & Hp & Hin'). injection Hp as <- <-.
-  exists c. split; [reflexivity|]. split; [reflexivity|]. split; [assumption|].
+  apply in_map_iff in Hin as (p' & Hp & Hin'). injection Hp as Ha Hp'. subst p'.
+  exists c. split; [reflexivity|]. split; [exact Ha|]. rewrite <- Ha. split; [assumption|].
   split; [cbn; now rewrite fupd_same|]. split; [assumption|]. split; [cbn; now rewrite fupd_same|].
   intros c' [h1 h2] He.
   set (sf := set_conn _ c _) in *.
-  assert (Hin2 : In c' (reg sf A)).
+  assert (Hin2 : In c' (reg sf id)).
   { rewrite (inv_reg sf I'). apply filter_In. split; [now apply (inv_order sf I')|].
     apply live_for_true. auto. }
   unfold sf in Hin2. cbn in Hin2. rewrite fupd_same in Hin2. contradiction.
@@ -572,3 +583,155 @@ Example promotion_example :
     reg s 0 = [] /\ mq (conns s 1) = [FHealth 1; FHealth 0] /\ mq (conns s 0) = [FStatus 1] /\
     mq (conns s 3) = [FGone 0] /\ pq (conns s 3) = [FData 0 7].
 Proof. eexists. split; [vm_compute; reflexivity|]. repeat split. Qed.
+
+(* ---------------------------------------------------------------- script level: every state the
+   harness script semantics visits is reachable in the transition system, hence satisfies Inv *)
+Lemma doev_reach s e : reach s -> reach (doev s e).
+Proof.
+  intros H. unfold doev. change locked_register with true.
+  destruct (step true s e) eqn:E; [econstructor; eassumption|assumption].
+Qed.
+
+Lemma fold_left_reach {A} (f : state -> A -> state) l :
+  (forall s c, reach s -> reach (f s c)) -> forall s, reach s -> reach (fold_left f l s).
+Proof. intros Hf. induction l as [|a l IH]; cbn; intros s H; [assumption|]. apply IH, Hf, H. Qed.
+
+Lemma settle_exits_reach s : reach s -> reach (settle_exits s).
+Proof.
+  unfold settle_exits. apply fold_left_reach. intros t c H.
+  destruct (_ && _); [now apply doev_reach|assumption].
+Qed.
+
+Lemma deliver_all_reach fuel : forall s c pkt, reach s -> reach (deliver_all fuel s c pkt).
+Proof.
+  induction fuel as [|f IH]; cbn [deliver_all]; intros s c pkt H; [assumption|].
+  change locked_register with true.
+  destruct (step true s (Deliver c pkt)) eqn:E; [|assumption].
+  apply IH. econstructor; eassumption.
+Qed.
+
+Lemma settle_reach s : reach s -> reach (settle s).
+Proof.
+  intros H. unfold settle, settle_deliver. apply fold_left_reach.
+  - intros t c Ht. now apply deliver_all_reach, deliver_all_reach.
+  - now apply settle_exits_reach.
+Qed.
+
+Lemma notify_all_reach fuel : forall s, reach s -> reach (notify_all fuel s).
+Proof.
+  induction fuel as [|f IH]; cbn [notify_all]; intros s H; [assumption|].
+  destruct (pending s); [assumption|]. now apply IH, doev_reach.
+Qed.
+
+Lemma unregister_full_reach s c : reach s -> reach (unregister_full s c).
+Proof. intros H. unfold unregister_full. now apply notify_all_reach, doev_reach. Qed.
+
+#[local] Hint Resolve doev_reach settle_reach unregister_full_reach : c06.
+
+Lemma exec_op_reach ss o : reach (st ss) -> reach (st (fst (exec_op ss o))).
+Proof.
+  intros H. unfold exec_op, skip. change locked_register with true.
+  repeat match goal with
+         | |- context [match ?x with _ => _ end] => destruct x
+         end; cbn [fst st]; auto 6 with c06.
+Qed.
+
+Lemma exec_ops_reach l : forall ss, reach (st ss) -> Forall (fun p => reach (st (fst p))) (exec_ops ss l).
+Proof.
+  induction l as [|o l IH]; intros ss H; cbn [exec_ops].
+  - destruct (win ss); [|constructor].
+    pose proof (exec_op_reach ss (OInsert n) H) as H1.
+    destruct (exec_op ss (OInsert n)) as [ss1 r]. constructor; [exact H1|constructor].
+  - pose proof (exec_op_reach ss o H) as H1.
+    destruct (exec_op ss o) as [ss1 r]. constructor; [exact H1|]. apply IH, H1.
+Qed.
+
+(* what the model reports is its own state *)
+Lemma nth_states s c :
+  c < nconns s -> nth (N.to_nat c) (states_of s) 2 = cst_code (cstate (conns s c)).
+Proof.
+  intros H. unfold states_of, crange.
+  set (g := fun c0 => cst_code (cstate (conns s c0))).
+  rewrite map_map.
+  rewrite (nth_indep _ 2 ((fun x => g (N.of_nat x)) 0%nat)) by (rewrite map_length, seq_length; lia).
+  rewrite (map_nth (fun x => g (N.of_nat x))). rewrite seq_nth by lia. cbn. unfold g. now rewrite N2Nat.id.
+Qed.
+
+Lemma expected_stack_model s id :
+  Inv s -> expected_stack s (states_of s) id = reg s id.
+Proof.
+  intros I. rewrite (inv_reg s I). unfold expected_stack. apply filter_ext_in. intros c Hc.
+  assert (Hlt : c < nconns s).
+  { apply (inv_order s I) in Hc. destruct (N.lt_ge_cases c (nconns s)) as [?|Hge]; [assumption|].
+    destruct (inv_fresh s I c Hge). congruence. }
+  rewrite nth_states by assumption. unfold live_for. f_equal.
+  now destruct (cstate (conns s c)).
+Qed.
+
+Lemma snapshot_ids_ok s : forallb (fun e : N * N * list N => fst (fst e) <? 4) (snapshot s) = true.
+Proof.
+  unfold snapshot, ids. cbn [flat_map].
+  destruct (reg s 0), (reg s 1), (reg s 2), (reg s 3); reflexivity.
+Qed.
+
+Lemma stack_of_snapshot s id : In id ids -> stack_of_snap (snapshot s) id = reg s id.
+Proof.
+  unfold ids. cbn [In]. intros H.
+  unfold stack_of_snap, snapshot, ids. cbn [flat_map].
+  destruct H as [<-|[<-|[<-|[<-|[]]]]];
+    destruct (reg s 0) eqn:E0, (reg s 1) eqn:E1, (reg s 2) eqn:E2, (reg s 3) eqn:E3;
+    repeat (cbn;
+            repeat match goal with
+                   | |- context [N.eqb ?a ?b] =>
+                       let v := eval vm_compute in (N.eqb a b) in change (N.eqb a b) with v
+                   end);
+    rewrite ?rev_involutive; reflexivity.
+Qed.
+
+Lemma registry_ok_model ss0 ss1 r : Inv (st ss1) -> registry_ok (st ss1) (observe ss0 ss1 r) = true.
+Proof.
+  intros I. unfold registry_ok, observe. cbn [o_snap o_states].
+  destruct (win ss1); [reflexivity|].
+  rewrite snapshot_ids_ok. cbn [andb].
+  apply forallb_forall. intros id Hid.
+  rewrite stack_of_snapshot by assumption. rewrite expected_stack_model by assumption.
+  apply list_eqb_refl, N.eqb_refl.
+Qed.
+
+Lemma monitor_steps_model l : forall ss, reach (st ss) ->
+  monitor_steps (exec_ops ss l) (map snd (exec_ops ss l)) = true.
+Proof.
+  induction l as [|o l IH]; intros ss H; cbn [exec_ops].
+  - destruct (win ss); [|reflexivity].
+    pose proof (exec_op_reach ss (OInsert n) H) as H1.
+    destruct (exec_op ss (OInsert n)) as [ss1 r]. cbn.
+    rewrite registry_ok_model by (now apply reach_Inv). reflexivity.
+  - pose proof (exec_op_reach ss o H) as H1.
+    destruct (exec_op ss o) as [ss1 r]. cbn [map snd monitor_steps fst].
+    rewrite registry_ok_model by (now apply reach_Inv). cbn [andb]. apply IH, H1.
+Qed.
+
+Lemma model_monitor i : monitor i (model i) = true.
+Proof.
+  unfold monitor, model, trace. apply monitor_steps_model. cbn. apply reach_init.
+Qed.
+
+(* the monitor, on arbitrary observations, says exactly: at every observed point the registry
+   holds, per endpoint id, the registered-and-not-ended connections, newest first *)
+Definition obs_registry_spec (s : state) (ob : obs) : Prop :=
+  forall snap, o_snap ob = Some snap ->
+    (forall e, In e snap -> fst (fst e) < 4) /\
+    forall id, In id ids -> stack_of_snap snap id = expected_stack s (o_states ob) id.
+
+Lemma registry_ok_spec s ob : registry_ok s ob = true <-> obs_registry_spec s ob.
+Proof.
+  unfold registry_ok, obs_registry_spec. destruct (o_snap ob) as [snap|].
+  - rewrite andb_true_iff, !forallb_forall. split.
+    + intros [h1 h2] snap' E. injection E as <-. split.
+      * intros e He. apply N.ltb_lt. now apply h1.
+      * intros id Hid. apply (list_eqb_eq N.eqb); [intros a b; apply N.eqb_eq|now apply h2].
+    + intros H. destruct (H snap eq_refl) as [h1 h2]. split.
+      * intros e He. apply N.ltb_lt. now apply h1.
+      * intros id Hid. rewrite h2 by assumption. apply list_eqb_refl, N.eqb_refl.
+  - split; [discriminate|reflexivity].
+Qed.
